@@ -9,6 +9,7 @@ from __future__ import annotations
 
 import asyncio
 import threading
+import time
 import warnings
 
 from vf.common import rng_for
@@ -23,9 +24,11 @@ RULE = ("case = (suspender class, thresholds/band/expected value incl. 0, 0.0, n
         "S/R/N decisions); non-trivial = sequence contains at least one trip")
 ASSUMPTIONS = ["documented predicates: Floor suspends on v < s and resumes on v > r (v == r not judged: 'rises above' is "
                "ambiguous), Ceil mirrored, bands are open intervals, WhenChanged resumes only with allow_resume",
-               "values are not NaN", "sleep=0"]
+               "values are not NaN", "sleep is 0 or 0.05 s (the values arrive faster than the settle time; the releases are "
+               "checked after it has elapsed)"]
 REQUIRED_COUNTERS = {"steps_checked": 2000, "trips": 200, "releases": 100, "falsy_param_cases": 20,
-                     "predicate_pairs_checked": 1000, "reinstalls": 100}
+                     "predicate_pairs_checked": 1000, "reinstalls": 100,
+                     "settle_time_cases": 80}
 MANIFEST = {
     "technique": "reference latch (documented predicates) vs real suspender objects driven through a fake signal from a "
                  "foreign thread, stub engine recording request_suspend and release events",
@@ -144,6 +147,11 @@ def run_case(case):
         init = p.pop("_init", rng.choice(pool))
         sig = Sig("sig", value=init)
         kwargs = {k: v for k, v in p.items() if not (k == "resume_thresh" and v is None)}
+        # a settle time: the release of a finished trip comes `sleep` seconds after the return to nominal, and a new trip
+        # inside that window is a new suspension
+        settle = 0.05 if rng.random() < 0.2 else 0
+        if settle:
+            kwargs["sleep"] = settle
         with warnings.catch_warnings():
             warnings.simplefilter("ignore")
             sus = getattr(bs, cls)(sig, **kwargs)
@@ -160,7 +168,7 @@ def run_case(case):
         shape = ""
         problem = None
         counters = {"falsy_param_cases": int(falsy), "steps_checked": 0, "trips": 0, "releases": 0,
-                    "predicate_pairs_checked": 0, "reinstalls": 0}
+                    "predicate_pairs_checked": 0, "reinstalls": 0, "settle_time_cases": 0}
         finished_events = []
         current_event_idx = None
         for step, v in enumerate(seq):
@@ -219,13 +227,25 @@ def run_case(case):
                 if ev is None:
                     continue
                 is_set = ev.is_set()
-                if k in finished_events and not is_set:
+                if k in finished_events and not is_set and not settle:
                     bad_rel = ("release-missing", k)
                 if k == current_event_idx and is_set:
                     bad_rel = ("released-while-condition-holds", k)
             if bad_rel:
                 problem = (bad_rel[0], f"after values {seq[:step + 1]!r} request #{bad_rel[1]}")
                 break
+        if settle and problem is None:
+            counters["settle_time_cases"] += 1
+            time.sleep(settle + 0.08)
+            _flush(loop)
+            for k, (fut, just) in enumerate(stub.requests):
+                ev = getattr(fut, "__self__", None)
+                if ev is None:
+                    continue
+                if k in finished_events and not ev.is_set():
+                    problem = ("release-missing-after-settle-time", f"values {seq!r} request #{k}")
+                if k == current_event_idx and ev.is_set():
+                    problem = ("released-while-condition-holds", f"values {seq!r} request #{k} (after the settle time)")
         try:
             sus.remove()
             _flush(loop, 1)
